@@ -8,7 +8,7 @@ def run_scenario(case):
     from aiorpcx import session, curio
     loop = sessions.new_loop()
     try:
-        proto, ft, s = sessions.attach(session.RPCSession, kind='server', transport=case['transport'], hwm=case['hwm'])
+        proto, ft, s = sessions.attach(session.RPCSession, kind=case.get('kind', 'server'), transport=case['transport'], hwm=case['hwm'])
         blind, wire = [], []
         orig = ft.write
 
@@ -78,6 +78,8 @@ class C15(Prop):
     def corpus(self):
         return [{'transport': 'rs', 'hwm': 5, 'events': [['send', 1, 10], ['send', 2, 10], ['send', 3, 10], ['send', 4, 10], ['drain'], ['tick'], ['drain'], ['tick'], ['drain'], ['tick'], ['advance', 28], ['tick']]},
                 {'transport': 'us', 'hwm': 5, 'events': [['send', 1, 10], ['send', 2, 10], ['send', 3, 10], ['drain'], ['tick'], ['advance', 28], ['tick']]},
+                {'transport': 'us', 'kind': 'client', 'hwm': 5, 'events': [['send', 1, 10], ['send', 2, 10], ['send', 3, 10], ['drain'], ['tick'], ['advance', 28], ['tick']]},
+                {'transport': 'rs', 'kind': 'client', 'hwm': 5, 'events': [['send', 1, 10], ['send', 2, 10], ['tick'], ['drain'], ['tick']]},
                 {'transport': 'rs', 'hwm': 5, 'events': [['send', 1, 10], ['send', 2, 3], ['advance', 21], ['tick'], ['send', 3, 1], ['tick']]},
                 {'transport': 'rs', 'hwm': 5, 'events': [['send', 1, 10], ['send', 2, 3], ['send', 3, 3], ['lost'], ['tick']]}]
 
@@ -99,7 +101,7 @@ class C15(Prop):
                 else:
                     ev.append(['advance', rng.choice([7, 14, 28])])     # multiples of 7: never 20 s after a sender started (timer ties)
             ev += [['advance', 28], ['tick']]       # let stalled sends run into max_send_delay
-            yield {'transport': rng.choice(['rs', 'us']), 'hwm': rng.choice([5, 5, 12, 30, 1000]), 'events': ev}
+            yield {'transport': rng.choice(['rs', 'us']), 'kind': rng.choice(['server', 'client']), 'hwm': rng.choice([5, 5, 12, 30, 1000]), 'events': ev}
 
     def run_impl(self, case):
         if case.get('stall'):
@@ -235,7 +237,7 @@ class C15(Prop):
     def histogram(self, case, obs):
         if case.get('stall'):
             return ['stall']
-        h = ['transport=' + case['transport'], 'hwm=%d' % case['hwm']]
+        h = ['transport=' + case['transport'], 'kind=' + case.get('kind', 'server'), 'hwm=%d' % case['hwm']]
         if obs['timeouts']:
             h.append('has_timeout')
         if obs['blind']:
